@@ -68,17 +68,17 @@ def redeclare(spec):
     return bool(pre)
 
 
-def check_case(acc, chain_l, cur, locking, load, duty, init=None, redeclared=False):
+def check_case(acc, chain_l, cur, locking, load, duty, init=None, redeclared=False, teeth_mode='rotating'):
     chain_l = [tuple(x) for x in chain_l]
     spec = menu.assign(chain_l, motor=menu.MOTOR_CUR if cur else menu.MOTOR_PLAIN, locking=locking,
-                       init=init or {'theta': [0.2, 'rad'], 'w': [1.5, 'rad/s']})
+                       init=init or {'theta': [0.2, 'rad'], 'w': [1.5, 'rad/s']}, teeth_mode=teeth_mode)
     if redeclared and not redeclare(spec):
         return
     stall = menu.stall_at_output(spec)
     spec['load'] = load_spec(load, stall)
     d = len(duty)
     case = {'kind': 'case', 'chain': chain_l, 'cur': cur, 'locking': locking, 'load': list(load),
-            'duty': list(duty), 'redeclared': redeclared}
+            'duty': list(duty), 'redeclared': redeclared, 'teeth_mode': teeth_mode}
     m, info = sim.run_schedule(spec, [('run', DT, [DT[0] * (d - 1), 'sec'], list(duty), None)])
     acc.executions += 1
     if info['error']:
@@ -91,7 +91,7 @@ def check_case(acc, chain_l, cur, locking, load, duty, init=None, redeclared=Fal
     def emit(sfx, clause, k, detail):
         dd = dict(detail)
         dd.update(instant=k, chain=name)
-        acc.violation(f'C02/{sfx}' + ('/after-redeclaration' if redeclared else ''), clause, case, dd)
+        acc.violation(f'C02/{sfx}' + ('/after-redeclaration' if redeclared else '') + ('/unit-ratio-mating' if teeth_mode == 'equal' else ''), clause, case, dd)
 
     # efficiency attributes: joints must carry 1
     for i in range(1, chain.n):
@@ -117,6 +117,7 @@ def run_shard(shard, tier):
     variants = [False, True] if menu.has_worm_drive(chain_l) else [False]
     d = depth(tier)
     first = True
+    has_mating = any(lt in ('G', 'W') for lt, _ in chain_l)
     for locking in variants:
         for load in LOADS:
             for duty in itertools.product(DUTIES, repeat=d):
@@ -124,6 +125,9 @@ def run_shard(shard, tier):
                 if duty[0] == 1 and duty[-1] != duty[0]:
                     # the same chain assembled after a history of re-declared relations
                     check_case(acc, chain_l, shard['cur'], locking, load, duty, redeclared=True)
+                if has_mating and duty[0] != duty[1]:
+                    # every mating with ratio exactly 1 (equal teeth): ratio and efficiency must not be confused with a joint
+                    check_case(acc, chain_l, shard['cur'], locking, load, duty, teeth_mode='equal')
                 if first:
                     acc.sample({'chain': menu.chain_name(chain_l), 'motor_with_current': shard['cur'],
                                 'locking': locking, 'load': load, 'duty_sequence': duty})
@@ -134,6 +138,6 @@ def run_shard(shard, tier):
 def replay(case):
     acc = Acc()
     if case.get('kind') == 'case':
-        check_case(acc, case['chain'], case['cur'], case['locking'], tuple(case['load']), tuple(case['duty']), redeclared=case.get('redeclared', False))
+        check_case(acc, case['chain'], case['cur'], case['locking'], tuple(case['load']), tuple(case['duty']), redeclared=case.get('redeclared', False), teeth_mode=case.get('teeth_mode', 'rotating'))
         return acc.violations
     return run_shard(case['shard'], 'quick').violations
